@@ -208,7 +208,7 @@ def gen_cscd(rng, spc):
     pk = "target_descriptor_parameters" if spc == 4 else "cscd_descriptor_parameters"
     devt = rng.choice(BLOCK_TYPES[spc] + [0x01, 0x01, 0x03])
     kind = rng.choice(SHORT_DESIG)
-    dtype, dv = D.gen_designator(rng, kind, maxlen=19)
+    dtype, dv = D.gen_designator(rng, kind, maxlen=20)  # a CSCD identification descriptor has room for 20 designator bytes
     body = D.encode_designator(dtype, dv)
     assert len(body) <= 20
     ident = {"code_set": rng.choice([1, 2, 3]), "association": rng.choice([0, 1, 2]), "designator_type": dtype,
